@@ -199,6 +199,8 @@ class Verdict:
         self.assumptions = []
         self._distinct = set()
         self.notes = {}
+        for f in (OUT / "replay").glob(f"{pid}_*.json") if (OUT / "replay").exists() else []:
+            f.unlink()
 
     # --- measured counts
     def add_tlc(self, res, name=None):
